@@ -31,6 +31,8 @@ namespace PSC {
 
         FileMode getMode();
 
+        bool isOpen() const;
+
         bool eof();
 
         void close();
